@@ -20,10 +20,12 @@ def gen_scenario(rng, bias=None):
     if rng.random() < bias.get('p_empty', 0.25):
         lens[rng.randrange(nc)] = 0
     texts = []
+    shared = rng.random() < bias.get('p_shared_alphabet', 0.0)     # contents over one letter: concatenations of different pairs can coincide
     for i, L in enumerate(lens):
-        t = chr(97 + i) * L
+        ch = 'a' if shared else chr(97 + i)
+        t = ch * L
         while t in texts:            # at most one empty text
-            t += chr(97 + i)
+            t += ch
         texts.append(t)
     rank = list(range(nc))
     rng.shuffle(rank)                # rank[c]: accepted steps go to strictly smaller rank
